@@ -82,6 +82,9 @@ const fieldChars = "abcXYZ019_.:|>@+#;=-/ *~!\"'"
 func genField(r *simrt.RNG, noSpace bool) string {
 	for {
 		n := r.Pick(1, 1, 2, 4, 12)
+		if r.Intn(60) == 0 {
+			n = r.Pick(4095, 4096, 4097, r.Range(3000, 9000)) // fields around bufio's buffer size
+		}
 		b := make([]byte, n)
 		for i := range b {
 			if r.Intn(4) == 0 {
@@ -107,7 +110,7 @@ func genCoord(r *simrt.RNG) int {
 	case 1:
 		return -r.Intn(1000)
 	case 2:
-		return r.Pick(math.MaxInt32, math.MinInt32, 1<<40, -(1 << 40))
+		return r.Pick(math.MaxInt32, math.MinInt32, 1<<40, -(1 << 40), math.MaxInt64, math.MinInt64, math.MaxInt32+1, math.MinInt32-1)
 	}
 	return r.Intn(100000)
 }
@@ -135,7 +138,11 @@ func genBed(r *simrt.RNG) C02Plan {
 				b.RGB = [3]int{0, 0, 0}
 			}
 		}
-		for j, k := 0, r.Range(1, 4); j < k; j++ {
+		nb := r.Range(1, 4)
+		if r.Intn(15) == 0 {
+			nb = r.Range(5, 60)
+		}
+		for j, k := 0, nb; j < k; j++ {
 			b.Sizes = append(b.Sizes, genCoord(r))
 			b.Starts = append(b.Starts, genCoord(r))
 		}
@@ -268,7 +275,11 @@ func genGff(r *simrt.RNG) C02Plan {
 			if r.Intn(4) == 0 {
 				it.NilAttrs = true
 			} else {
-				for j, m := 0, r.Pick(0, 1, 1, 2, 4); j < m; j++ {
+				na := r.Pick(0, 1, 1, 2, 4)
+				if r.Intn(15) == 0 {
+					na = r.Range(5, 30)
+				}
+				for j, m := 0, na; j < m; j++ {
 					it.Attrs = append(it.Attrs, GffAttr{genTag(r), genAttrValue(r)})
 				}
 			}
